@@ -1,7 +1,7 @@
 (* SnapRead/Props.v — theorems for C05 (snapshot reads are stable and identical across all access paths). *)
 From Verif Require Import Base.Lex SnapRead.Model SnapRead.ModelRead SnapRead.ProofsOrd SnapRead.ProofsList
   SnapRead.ProofsScanF SnapRead.ProofsScanR SnapRead.ProofsScanLoop SnapRead.ProofsScanLoopR
-  SnapRead.ProofsCache SnapRead.ProofsRead SnapRead.ProofsTerm.
+  SnapRead.ProofsCache SnapRead.ProofsRead SnapRead.ProofsTerm SnapRead.ProofsMove.
 
 (* For every truth (ascending keys), every snapshot ts, all bounds (empty = unbounded; even lo > hi),
    every batch size (0 and 1 are replaced by the default as in newScanner), key-only or not, EVERY
@@ -128,6 +128,27 @@ Proof.
 Qed.
 Print Assumptions C05_cache_transparent.
 
+(* One snapshot object that remembers which transactions it ignores (resolvedLocks), read by a
+   program of Gets interleaved with SetSnapshotTS in BOTH directions and with lock-state changes (the
+   owner of a transaction finishes it): every answer is read_at, at the version current at that
+   moment, on the final truth.  SetSnapshotTS clears the cache and the ignored set on every call;
+   environment assumption at a move (p_env): transactions still alive and pushable can only commit
+   above the new timestamp. *)
+Theorem C05_ts_moves :
+  forall (w : world) (ts : N) (fuel : nat) (ops : list pop),
+    txs_ok (w_txns w) ts ->
+    let Fin := fun k => final_ws (w_txns w) (k_get (w_keys w) k) in
+    let st := (w, mkRS ts None []) in
+    p_env fuel st ops -> p_right Fin fuel st ops.
+Proof.
+  intros w ts fuel ops Htx Fin st Henv. apply p_program_right; [|exact Henv].
+  split; [|split].
+  - cbn. split; [exact Htx|]. split; [intros t []|intros k; reflexivity].
+  - intros k v Hv. discriminate.
+  - reflexivity.
+Qed.
+Print Assumptions C05_ts_moves.
+
 (* ---------------------------------------------------------------- non-vacuity *)
 (* a world with every kind of leftover lock; ts = 50 *)
 Definition ex_world : world :=
@@ -186,4 +207,14 @@ Example ex_cache :
   c_run (fun ts k => if ts <? 20 then Some [1] else None) (mkSnap 10 None)
         [CGet [97]; CBatchErr [[97]; [98]] [[98]]; CGet [98]; CSetTS 30; CGet [97]; CSetTS maxts; CGet [97]]
   = [RGet (Some [1]); RErr; RGet (Some [1]); RUnit; RGet None; RUnit; RGet None].
+Proof. vm_compute. reflexivity. Qed.
+
+(* reader at ts 50 meets the pushable transaction 48 (key f) and ignores it; the owner commits it at 80;
+   the SAME snapshot moved forward to 100 must see the new value (the ignored set is dropped), moved
+   back to 50 the old one *)
+Example ex_forward_move :
+  let run := fix run (st : world * rsnap) (ops : list pop) : list (option (option value)) :=
+               match ops with [] => [] | o :: r => let '(a, st') := p_step 10 st o in a :: run st' r end in
+  run (ex_world, mkRS 50 None []) [PGet [102]; PFinish 48; PSetTS 100; PGet [102]; PSetTS 50; PGet [102]]
+  = [Some (Some [8]); None; None; Some (Some [9]); None; Some (Some [8])].
 Proof. vm_compute. reflexivity. Qed.
